@@ -6,6 +6,7 @@ import (
 	"io"
 	"os"
 	"os/exec"
+	"strconv"
 	"strings"
 	"time"
 )
@@ -15,28 +16,48 @@ import (
 type Solver struct {
 	bin     string
 	cmd     *exec.Cmd
-	in      io.WriteCloser
+	in      *bufio.Writer
+	inc     io.WriteCloser
 	out     *bufio.Reader
 	defined []map[int]bool // per push level: ids of defined / declared terms
 	Queries int
+	Sat     int
+	Unsat   int
 	Dur     time.Duration
 	Unknown int
+	Errors  int
+	MaxQ    time.Duration
 	log     io.Writer
 }
 
-func NewSolver(bin string, args ...string) *Solver {
+// solverArgs returns the command line for a back end name: z3-new, z3, cvc5.
+func solverArgs(name string, timeoutMs int) (string, []string) {
+	switch name {
+	case "cvc5":
+		return "cvc5", []string{"--incremental", "--produce-models", fmt.Sprintf("--tlimit-per=%d", timeoutMs), "--lang=smt2"}
+	case "z3":
+		return "z3", []string{"-in", fmt.Sprintf("-t:%d", timeoutMs)}
+	default:
+		return "z3-new", []string{"-in", fmt.Sprintf("-t:%d", timeoutMs)}
+	}
+}
+
+func NewSolver(name string, timeoutMs int) *Solver {
+	bin, args := solverArgs(name, timeoutMs)
 	c := exec.Command(bin, args...)
 	in, _ := c.StdinPipe()
 	o, _ := c.StdoutPipe()
 	c.Stderr = os.Stderr
 	if err := c.Start(); err != nil {
-		panic(err)
+		fmt.Fprintf(os.Stderr, "cannot start solver %s: %v\n", bin, err)
+		os.Exit(3)
 	}
-	s := &Solver{bin: bin, cmd: c, in: in, out: bufio.NewReader(o), defined: []map[int]bool{{}}}
+	s := &Solver{bin: name, cmd: c, inc: in, in: bufio.NewWriterSize(in, 1<<16), out: bufio.NewReader(o), defined: []map[int]bool{{}}}
 	if f := os.Getenv("GOSYM_SMTLOG"); f != "" {
 		s.log, _ = os.Create(f)
 	}
 	s.send("(set-option :print-success false)")
+	s.send("(set-option :produce-models true)")
 	s.send("(set-logic ALL)")
 	return s
 }
@@ -45,7 +66,8 @@ func (s *Solver) send(x string) {
 	if s.log != nil {
 		io.WriteString(s.log, x+"\n")
 	}
-	io.WriteString(s.in, x+"\n")
+	s.in.WriteString(x)
+	s.in.WriteByte('\n')
 }
 
 func (s *Solver) isDefined(id int) bool {
@@ -68,11 +90,10 @@ func (s *Solver) ref(t *Term) string {
 		}
 		return t.name
 	}
-	name := fmt.Sprintf("t%d", t.id)
+	name := "t" + strconv.Itoa(t.id)
 	if s.isDefined(t.id) {
 		return name
 	}
-	// define children first (iteratively deep terms are fine: recursion depth = term depth)
 	h := t.head(s.ref)
 	s.send(fmt.Sprintf("(define-fun %s () %s %s)", name, sortOf(t), h))
 	s.defined[len(s.defined)-1][t.id] = true
@@ -96,30 +117,21 @@ func (s *Solver) Assert(t *Term) {
 	s.send("(assert " + s.ref(t) + ")")
 }
 
-// Check returns "sat", "unsat" or "unknown".
-func (s *Solver) Check(extra ...*Term) string {
-	s.Queries++
-	t0 := time.Now()
-	defer func() { s.Dur += time.Since(t0) }()
-	if len(extra) > 0 {
-		s.Push()
-		defer s.Pop()
-		for _, e := range extra {
-			if e.k && e.c == 0 {
-				return "unsat"
-			}
-			s.Assert(e)
-		}
-	}
-	s.send("(check-sat)")
+func (s *Solver) readAnswer() string {
+	s.in.Flush()
 	for {
 		line, err := s.out.ReadString('\n')
 		if err != nil {
-			panic("solver died: " + err.Error())
+			fmt.Fprintln(os.Stderr, "solver died: "+err.Error())
+			os.Exit(3)
 		}
 		line = strings.TrimSpace(line)
 		switch line {
-		case "sat", "unsat":
+		case "sat":
+			s.Sat++
+			return line
+		case "unsat":
+			s.Unsat++
 			return line
 		case "unknown", "timeout":
 			s.Unknown++
@@ -129,31 +141,68 @@ func (s *Solver) Check(extra ...*Term) string {
 		}
 		if strings.HasPrefix(line, "(error") {
 			fmt.Fprintln(os.Stderr, "SOLVER ERROR:", line)
+			s.Errors++
 			s.Unknown++
 			return "unknown"
 		}
 	}
 }
 
-// Model evaluates the given variables after a sat answer (must be called with the same extra assertions active).
-func (s *Solver) Values(extra []*Term, vars []*Term) map[string]string {
+// Check returns "sat", "unsat" or "unknown" for the current assertions plus extra.
+func (s *Solver) Check(extra ...*Term) string {
+	s.Queries++
+	t0 := time.Now()
+	defer func() {
+		d := time.Since(t0)
+		s.Dur += d
+		if d > s.MaxQ {
+			s.MaxQ = d
+		}
+	}()
+	if len(extra) > 0 {
+		for _, e := range extra {
+			if e.k && e.c == 0 {
+				s.Unsat++
+				return "unsat"
+			}
+		}
+		s.Push()
+		defer s.Pop()
+		for _, e := range extra {
+			s.Assert(e)
+		}
+	}
+	s.send("(check-sat)")
+	return s.readAnswer()
+}
+
+// Eval evaluates terms under a model of (current assertions + extra). Returns nil if not sat.
+// Values are returned as uint64 (bool: 0/1).
+func (s *Solver) Eval(extra []*Term, terms []*Term) []uint64 {
 	s.Push()
 	defer s.Pop()
 	for _, e := range extra {
 		s.Assert(e)
 	}
+	names := make([]string, len(terms))
+	for i, t := range terms {
+		names[i] = s.ref(t)
+	}
 	s.send("(check-sat)")
-	line, _ := s.out.ReadString('\n')
-	if strings.TrimSpace(line) != "sat" {
+	if s.readAnswer() != "sat" {
 		return nil
 	}
-	res := map[string]string{}
-	for _, v := range vars {
-		s.send("(get-value (" + s.ref(v) + "))")
+	res := make([]uint64, len(terms))
+	for i := range terms {
+		s.send("(get-value (" + names[i] + "))")
+		s.in.Flush()
 		l, _ := s.out.ReadString('\n')
 		depth := strings.Count(l, "(") - strings.Count(l, ")")
 		for depth > 0 {
-			m, _ := s.out.ReadString('\n')
+			m, err := s.out.ReadString('\n')
+			if err != nil {
+				break
+			}
 			l += m
 			depth += strings.Count(m, "(") - strings.Count(m, ")")
 		}
@@ -161,15 +210,46 @@ func (s *Solver) Values(extra []*Term, vars []*Term) map[string]string {
 		// ((name value))
 		l = strings.TrimPrefix(l, "((")
 		l = strings.TrimSuffix(l, "))")
-		if i := strings.Index(l, " "); i > 0 {
-			res[v.name] = strings.TrimSpace(l[i+1:])
+		j := strings.LastIndex(l, " ")
+		val := l
+		if strings.HasSuffix(l, ")") { // (_ bvN w)
+			if k := strings.Index(l, "(_ bv"); k >= 0 {
+				f := strings.Fields(l[k+5:])
+				if len(f) > 0 {
+					v, _ := strconv.ParseUint(f[0], 10, 64)
+					res[i] = v
+					continue
+				}
+			}
 		}
+		if j >= 0 {
+			val = strings.TrimSpace(l[j+1:])
+		}
+		res[i] = parseSMTValue(val)
 	}
 	return res
 }
 
+func parseSMTValue(v string) uint64 {
+	switch {
+	case v == "true":
+		return 1
+	case v == "false":
+		return 0
+	case strings.HasPrefix(v, "#x"):
+		u, _ := strconv.ParseUint(v[2:], 16, 64)
+		return u
+	case strings.HasPrefix(v, "#b"):
+		u, _ := strconv.ParseUint(v[2:], 2, 64)
+		return u
+	}
+	u, _ := strconv.ParseUint(v, 10, 64)
+	return u
+}
+
 func (s *Solver) Close() {
 	s.send("(exit)")
-	s.in.Close()
+	s.in.Flush()
+	s.inc.Close()
 	s.cmd.Wait()
 }
